@@ -600,6 +600,18 @@ func c19GenImage(r *Rng, w, h int) *c19Img {
 	return &c19Img{w, h, bm, rows}
 }
 
+func c19BlackImage(w, h int) *c19Img {
+	bm, _ := gozxing.NewBitMatrix(w, h)
+	rows := make([]string, h)
+	for y := 0; y < h; y++ {
+		for x := 0; x < w; x++ {
+			bm.Set(x, y)
+		}
+		rows[y] = strings.Repeat("1", w)
+	}
+	return &c19Img{w, h, bm, rows}
+}
+
 func c19ShowBits(bm *gozxing.BitMatrix) string {
 	var sb strings.Builder
 	for y := 0; y < bm.GetHeight(); y++ {
@@ -964,6 +976,48 @@ func c19GenSample(r *Rng, idx int, big177 bool) *c19SampleCase {
 		s.tag = "targeted"
 		_ = tx
 		_ = ty
+		return s
+	}
+	if r.Chance(0.08) {
+		// "pole1d": one INNER cell centre of the row is steered into a chosen class while every other centre of the
+		// row stays inside the image: along the row the transformed coordinate is A + K/(u - t0) with the pole t0
+		// just right of centre k.  The to-quadrilateral lies entirely left of the pole (a legitimate convex pair).
+		w, h = r.Range(10, 60), r.Range(10, 60)
+		s.img = c19GenImage(r, w, h)
+		if r.Chance(0.7) {
+			s.img = c19BlackImage(w, h)
+		}
+		n := r.Range(5, 25)
+		s.dimX, s.dimY = n, r.Range(1, 2)
+		k := r.Range(2, n-2)
+		dl := []float64{0.125, 0.25}[r.Intn(2)]
+		t0 := float64(k) + 0.5 + dl
+		alongX := r.Bool()
+		lim := w
+		if !alongX {
+			lim = h
+		}
+		kind := []string{"far-lo", "minus2", "grey", "minus1", "band-lo", "inside", "last", "n", "band-hi", "nplus1", "far-hi"}[r.Intn(11)]
+		tv := c19Coord(r, kind, lim)
+		A := float64(lim) / 2
+		K := -dl * (tv - A)
+		B := float64(w+h-lim)/2 + 0.25
+		L := c19Uniform(r, 0.5, 3)
+		c := float64(k - 1)
+		s.to = []float64{0, 0, c, 0, c, 1, 0, 1}
+		s.from = make([]float64, 8)
+		for i := 0; i < 4; i++ {
+			u, v := s.to[2*i], s.to[2*i+1]
+			main := A + K/(u-t0)
+			other := B + L*(v-0.5)/(u-t0)
+			if alongX {
+				s.from[2*i], s.from[2*i+1] = main, other
+			} else {
+				s.from[2*i], s.from[2*i+1] = other, main
+			}
+		}
+		s.fam = "perspective"
+		s.tag = "pole1d:" + kind
 		return s
 	}
 	if r.Chance(0.2) && s.dimX >= 2 && s.dimY >= 2 && w >= 8 && h >= 8 {
